@@ -1286,6 +1286,13 @@ pub fn array_splice(
 
     drop(arr_ref);
     let guard = interp.heap.create_guard();
+    // The removed elements are no longer reachable through the source array: keep them
+    // guarded while the result array is allocated.
+    for val in &removed {
+        if let JsValue::Object(o) = val {
+            guard.guard(o.cheap_clone());
+        }
+    }
     let arr = interp.create_array_from(&guard, removed);
     Ok(Guarded::with_guard(JsValue::Object(arr), guard))
 }
